@@ -13,6 +13,9 @@ for sd in seeds:
     pid = meta["property"]
     if props and pid not in props:
         continue
+    only = [a.split("=")[1].split(",") for a in sys.argv if a.startswith("--only=")]
+    if only and sd.name.split("-")[1] not in only[0]:
+        continue
     if "--worktree" in sys.argv:
         # leave /repo alone (e.g. while a long run uses it): scratch worktree + CBI_REPO
         import os, tempfile
